@@ -67,7 +67,10 @@ package client
 // the arithmetic of the Iterate callback of recover is proved on the closure itself (short context):
 // the ranges queued for a resumed file are exactly the complement of the reported ranges in [0, size)
 //@ func (*Broker).recover$1
-//@   track store send
+//@   track store send poll
+//@   before store poll assert polls-unchanged-files-only: called(sts.FileSource.Sync) && lastret(sts.FileSource.Sync, 0) == nil && lastret(sts.FileSource.Sync, 1) == nil && lastarg(sts.FileSource.Sync, 1) == f && !lastret(sts.Cached.IsDone, 0)
+//@   before store send assert resumes-unchanged-files-only: called(sts.FileSource.Sync) && lastret(sts.FileSource.Sync, 0) == nil && lastret(sts.FileSource.Sync, 1) == nil && lastarg(sts.FileSource.Sync, 1) == f && !lastret(sts.Cached.IsDone, 0)
+//@   before call sts.FileCache.Done assert gone-files-only: store.IsNotExist(lastret(sts.FileSource.Sync, 1)) && arg1 == f.GetName() && arg2 == nil
 //@   after call sort.Sort assume reported-ranges-sorted: forall(i, 0, len(parts), parts[i] != nil && 0 <= parts[i].Beg && parts[i].Beg < parts[i].End && parts[i].End <= f.GetSize()) && forall(i, 0, len(parts), forall(j, i, len(parts), parts[i].Beg <= parts[j].Beg))
 //@   loop 0 invariant -1 <= rangeindex && rangeindex < len(parts) && 0 <= beg && (beg == 0 || beg <= f.GetSize())
 //@   loop 0 invariant frame-reported-ranges: !samearray(missing, parts) && forall(k, 0, len(parts), parts[k] == entry(parts[k]) && parts[k].Beg == entry(parts[k].Beg) && parts[k].End == entry(parts[k].End))
@@ -144,3 +147,18 @@ package client
 //@   before send chan-send assert polled-needs-all-bytes: as(arg1, *progressFile).sent >= as(arg1, *progressFile).size && arg0 == broker.chValidate
 //@   loop 2 backedge assert accounting: has(progress, binned.GetName()) && progress[binned.GetName()] == pFile && pFile.sent == ite(athead(has(progress, binned.GetName())) && athead(progress[binned.GetName()].hash) == binned.GetFileHash(), athead(progress[binned.GetName()].sent), 0) + lastret(sts.Binned.GetSlice, 1) && pFile.hash == binned.GetFileHash()
 //@   loop 2 backedge assert tracks-the-announced-size: !(athead(has(progress, binned.GetName())) && athead(progress[binned.GetName()].hash) == binned.GetFileHash()) ==> pFile.size == binned.GetSendSize()
+
+// ---------------------------------------------------------------- retry of failed files (C04 C17)
+
+//@ func (*Broker).startRetry
+//@   before call sendCh assert resend-keeps-prev: typeis(arg2[0], *recoverFile) && as(arg2[0], *recoverFile).prev == file.GetPrev() && len(as(arg2[0], *recoverFile).left) == 1 && as(arg2[0], *recoverFile).left[0].Beg == 0 && as(arg2[0], *recoverFile).left[0].End == cached.GetSize() && as(arg2[0], *recoverFile).Cached == cached && len(arg2) == 1 && arg1 == broker.chScanned
+//@   before call sendCh assert changed-not-resent: called(sts.FileSource.Sync) && lastret(sts.FileSource.Sync, 0) == nil && lastret(sts.FileSource.Sync, 1) == nil && called(sts.FileCache.Add)
+//@   before call sts.FileCache.Done assert gone-files-only: called(opener) && store.IsNotExist(lastret(opener, 1)) && arg2 == nil
+
+// ---------------------------------------------------------------- packing loop (C10 C11)
+
+//@ func (*Broker).startBin
+//@   track store current
+//@   before store current assert no-silent-drop: arg0 == nil && called(sts.Payload.Add) && lastret(sts.Payload.Add, 0) ==> called(sts.Binnable.IsAllocated) && lastret(sts.Binnable.IsAllocated, 0) && lastarg(sts.Binnable.IsAllocated, 0) == current
+//@   before store current assert dropped-only-after-packing: arg0 == nil ==> called(sts.Payload.Add) && lastarg(sts.Payload.Add, 1) == current
+//@   before call sts.Payload.Add assert packs-the-current-chunk: arg1 == current
